@@ -151,6 +151,17 @@ def _eval_single(cases):
             if _path(Ao) != path:
                 other = _call(case['kind'], Ao, Bc)
         f = _judge(case, got, drv, path, other)
+        if case.get('outalias'):
+            # erode(A, Bc, out=A): the statement quantifies over every call; _get_output accepts a C-contiguous array of the dtype and
+            # shape of A, so the image itself qualifies. Same specification as the out-less call (compared with it, which is judged above).
+            Ac = np.ascontiguousarray(Al).copy()
+            import mahotas as mh
+            r2 = (mh.erode if case['kind'] == 'erode' else mh.dilate)(Ac, Bc, out=Ac)
+            if not np.array_equal(np.asarray(r2), got):
+                f.append(dict(kind='property', key=f"{case['kind']}:out=alias-a",
+                              detail=dict(got=[int(x) for x in np.asarray(r2).ravel().tolist()], without_out=[int(x) for x in got.ravel().tolist()])))
+            if r2 is not Ac:
+                f.append(dict(kind='model', key=f"{case['kind']}:out-not-returned", detail={}))
         if not np.array_equal(before, Al):
             f.append(dict(kind='property', key='input-modified', detail={}))
         irregular = ('obs' in drv and '0' in drv['obs'])
@@ -162,6 +173,7 @@ def _eval_single(cases):
                         sig=lines[len(res)] + case.get('layout', 'C'),
                         tags=dict(kind=case['kind'], dtype=case['dtype'], ndim=len(case['shape']),
                                   layout=case.get('layout', 'C'), path=path, dilate_judged=judged, size=case.get('size', 'small'),
+                                  out=('alias-a' if case.get('outalias') else 'none'),
                                   signed=('signed' if case['dtype'].startswith('int') else 'unsigned-or-bool'),
                                   elem=('pyarg' if 'pyarg' in case else 'empty' if not any(case['bc']) else 'larger' if any(
                                       b > s for b, s in zip(case['bshape'], case['shape'])) else 'even' if any(
@@ -454,6 +466,8 @@ def cases(rng, tier):
         c = dict(kind=rng.choice(['erode', 'dilate']), dtype=dtype, shape=shape,
                  data=[int(x) for x in A.ravel().tolist()], bshape=bshape, bc=bc,
                  layout=rng.choice(gen.LAYOUTS))
+        if rng.random() < 0.25:
+            c['outalias'] = True       # also called in place (out = the image itself)
         if pyarg is not None:
             c['pyarg'] = pyarg
         else:
@@ -483,6 +497,8 @@ def shrink(case):
                     b = list(case['bc']); b[i] = 0
                     yield dict(case, bc=b)
         return
+    if case.get('outalias'):
+        yield {k: v for k, v in case.items() if k != 'outalias'}
     if 'pyarg' in case:
         # the same element passed as an explicit array (bshape/bc hold what get_structuring_elem returned)
         yield {k: v for k, v in case.items() if k != 'pyarg'}
